@@ -92,7 +92,8 @@ type dataMode struct {
 	Name     string `json:"name"`     // nil | spine | all
 	MaxDepth int    `json:"maxDepth"` // objects are produced at depth <= MaxDepth
 	ListLen  int    `json:"listLen"`
-	RtShift  int    `json:"rtShift"` // which possible type an abstract field resolves to
+	RtShift  int    `json:"rtShift"`        // which possible type an abstract field resolves to
+	Last     bool   `json:"last,omitempty"` // abstract fields resolve to the LAST possible type of the table
 }
 
 func (d dataMode) descend(key string, depth int) bool {
@@ -154,7 +155,11 @@ func (w *world) resolve(p graphql.ResolveParams) (interface{}, error) {
 		return nil, nil
 	}
 	mk := func(i int) *wnode {
-		c := &wnode{rt: rts[(w.mode.RtShift+i)%len(rts)], depth: depth}
+		idx := (w.mode.RtShift + i) % len(rts)
+		if w.mode.Last {
+			idx = len(rts) - 1
+		}
+		c := &wnode{rt: rts[idx], depth: depth}
 		src.add(key, c)
 		return c
 	}
@@ -233,6 +238,9 @@ type modelResp struct {
 		Oof   bool   `json:"oof"`
 	} `json:"overlap"`
 	Graph *graphModel `json:"graph"`
+	// possible-type tables validation asks for (model) and the proved bound
+	PtValidation uint64 `json:"ptValidation"`
+	PtBound      uint64 `json:"ptBound"`
 }
 
 type outcome struct {
@@ -419,6 +427,22 @@ func (r *runner) one(c caseT) *outcome {
 			return o
 		}
 		run.Tag("overlap-counters-compared-with-model")
+	}
+	// --- possible-type tables (site 11, when the library has it): validation = the model's exact prediction (<= the proved
+	// bound), planning asks for none
+	if m.PtValidation > m.PtBound {
+		run.Violation("model: possible-type tables of validation exceed the proved bound (theorem contradicted: model/driver fault)", map[string]interface{}{"case": c, "model": m}, true)
+	}
+	if len(o.Validate) > sitePossibleTypes {
+		if o.Validate[sitePossibleTypes] != m.PtValidation {
+			viol(fmt.Sprintf("possible-type table entries handed out during ValidateDocument differ from the model: go %d, model %d (proved bound %d)", o.Validate[sitePossibleTypes], m.PtValidation, m.PtBound), map[string]interface{}{"model": m})
+			return o
+		}
+		if o.Plan[sitePossibleTypes] != 0 {
+			viol(fmt.Sprintf("PlanQuery asked for possible-type tables (%d entries): the planner decides type conditions by a map lookup, its work must not depend on the number of possible types", o.Plan[sitePossibleTypes]), map[string]interface{}{"model": m})
+			return o
+		}
+		run.Tag("possible-type-site-compared-with-model")
 	}
 	// --- graph rules: list lengths / cycle errors read through the public API (and the proposed step counters when the
 	// library has them) against c02b's model with the step counters of GqlModel/GraphCost.lean
@@ -825,6 +849,9 @@ func main() {
 		run.Res.Extra["graph_series"] = r.graphFamilies()
 	}
 	run.Res.Extra["graph_families_s"] = time.Since(tFam).Seconds()
+	if !poisoned && !run.TooManyViolations() {
+		run.Res.Extra["possible_types_family"] = r.possibleTypesFamily()
+	}
 	run.Res.Extra["watchdog_s"] = watchdog.Seconds()
 
 	// random fragment graphs
